@@ -16,6 +16,7 @@ func TestC10(t *testing.T) { runProp(t, "C10") }
 func TestC11(t *testing.T) { runProp(t, "C11") }
 func TestC12(t *testing.T) { runProp(t, "C12") }
 func TestC16(t *testing.T) { runProp(t, "C16") }
+func TestC18(t *testing.T) { runProp(t, "C18") }
 func TestC19(t *testing.T) { runProp(t, "C19") }
 
 // TestReplay re-runs one saved case through the property's oracle, bypassing rapid.
